@@ -77,3 +77,33 @@ package module
 //@   trusted
 //@   pure
 //@   opt ghost:pc_verified ghost(pc_verified) + ((err == nil) ? 1 : 0)
+
+//@ property C05 C07
+// validator lists and block data are immutable values
+//@ smt all (declare-fun vl_len (Iface) Int)
+//@ smt all (declare-fun vl_idx (Iface BSeq) Int)
+//@ smt all (declare-fun addr_id (Iface) BSeq)
+//@ smt all (declare-fun blk_height (Iface) Int)
+//@ smt all (declare-fun blk_id (Iface) BSeq)
+//@ func (v ValidatorList) Len() (n)
+//@   iface
+//@   trusted
+//@   pure
+//@   ensures n == vl_len(v) && n >= 0 && n < 0x10000000
+// IndexOf dereferences its argument: a typed-nil pointer inside the interface is not allowed
+//@ func (v ValidatorList) IndexOf(a) (r)
+//@   iface
+//@   trusted
+//@   pure
+//@   requires a != nil && ivalue(a) != 0
+//@   ensures -1 <= r && r < vl_len(v) && r == vl_idx(v, addr_id(a))
+//@ func (b BlockData) Height() (h)
+//@   iface
+//@   trusted
+//@   pure
+//@   ensures h == blk_height(b)
+//@ func (b BlockData) ID() (id)
+//@   iface
+//@   trusted
+//@   pure
+//@   ensures seq(id) == blk_id(b)
